@@ -7,7 +7,7 @@
           eng buf < key histories               C05 buffer spec: "<handled> I=<hex> K=<caret>" per key
    (dlog = DLOG statements evaluated, i.e. the Debug/sanitizer build; default dlog)
 
-   histories: "schema synth_express|synth_fluid" starts a history (fresh model
+   histories: "schema synth_express|synth_fluid|synth_punct_express|synth_punct_fluid" starts a history (fresh model
    state); then one op per line (see harness/eng/session.cc).  One observation
    line per op, "== <schema>" per history, "CRASH <kind>" once the model reached
    an undefined C++ operation. *)
@@ -157,7 +157,7 @@ let view_of_line (line : Stdlib.String.t) : view * bool =
                 mo_cands = List.mapi (fun i t -> { c_start = O; c_end = O; c_text = bytes_of_hex t;
                                                    c_comment = (match List.nth_opt comments i with
                                                                 | Some x -> bytes_of_hex x | None -> []);
-                                                   c_preedit = [] }) texts;
+                                                   c_preedit = []; c_type = [] }) texts;
                 mo_select_keys = bytes_of_hex (f "sk") } in
   let len_ok = len_ok && List.length texts = n in
   ({ v_commit = bytes_of_hex (f "C"); v_input = bytes_of_hex (f "I"); v_caret = nat_of_int (fi "K");
@@ -215,8 +215,9 @@ let mode_model (dlog : bool) =
       if String.length line = 0 || line.[0] = '#' then ()
       else match split_ws line with
         | ["schema"; id] ->
-          if id = "synth_express" || id = "synth_fluid" then begin
-            cfg := synth_cfg (id = "synth_fluid") dlog;
+          if id = "synth_express" || id = "synth_fluid" || id = "synth_punct_express" || id = "synth_punct_fluid" then begin
+            cfg := (if id = "synth_express" || id = "synth_fluid" then synth_cfg (id = "synth_fluid") dlog
+                    else synth_punct_cfg (id = "synth_punct_fluid") dlog);
             st := Some (init_state !cfg);
             print_endline ("== " ^ id)
           end else begin
@@ -230,7 +231,7 @@ let mode_model (dlog : bool) =
              (match parse_op toks with
               | None -> print_endline ("BADOP " ^ line)
               | Some o ->
-                let (s', ob) = step !cfg oracle_translate s o in
+                let (s', ob) = step !cfg (synth_translate !cfg) s o in
                 st := Some s';
                 (match ob with
                  | ObsCrash e -> print_endline ("CRASH " ^ err_name e)
